@@ -6,6 +6,7 @@ import json, os, shutil, subprocess, sys, tempfile
 
 VERIF = os.path.dirname(os.path.dirname(os.path.abspath(__file__)))
 wt, prop = sys.argv[1], sys.argv[2]
+tag = sys.argv[3] if len(sys.argv) > 3 else ""
 ALL = ["C01", "C02", "C03", "C04", "C05", "C06", "C07", "C08", "C09", "C10", "C11", "C12", "C13", "C15", "C16"]
 
 
@@ -19,7 +20,7 @@ for v in sorted(os.listdir(sd)) if os.path.isdir(sd) else []:
     d = os.path.join(sd, v)
     if not os.path.exists(os.path.join(d, "patch.diff")):
         continue
-    vid = "%s-%s" % (prop, v)
+    vid = "%s-%s%s" % (prop, tag, v)
     scratch = tempfile.mkdtemp(prefix="xsgv-ing-")
     try:
         tree = os.path.join(scratch, "repo")
